@@ -46,6 +46,9 @@ def main(argv=None):
         ("4-5 leaves x 3-4 families (90% mutually consistent orders), dup/hgt/sloss symbolic (spe=0, floss=1), finite transfer cost",
          [(d, SR.runs_for(algos, ["any"], FLAGS, "dhs", inf_too=False)) for d in deep], False),
     ]
+    many = [SR.many_family_input(rng, rng.randint(2, 3), rng.randint(2, 3), rng.randint(9, 10)) for _ in range(6 if tier == "quick" else 40)]
+    sections.append(("2-3 leaves x 9-10 families in one common order (synteny masks wider than a byte), dup/hgt/sloss symbolic",
+                     [(d, SR.runs_for(algos, ["any"], FLAGS, "dhs", inf_too=False)) for d in many], False))
     if tier == "thorough":
         # one structural family completely: caterpillar object tree on 4 leaves, each leaf in its own species of a caterpillar species tree,
         # every non-empty subset of 4 families (in one common order) on every leaf: 15^4 inputs
@@ -61,6 +64,7 @@ def main(argv=None):
         PROP, tier, seed, sections, ["ordered", "dp"],
         bounds={"deep": "quick 120 / thorough 1200 seeded 4-5-leaf x 3-4-family inputs (dup, hgt, sloss symbolic); thorough: the complete 15^4 family "
                         "(4-leaf caterpillar, identity assignment, every leaf content over 4 families in one order) with dup, sloss symbolic",
+                "many families": "quick 6 / thorough 40 seeded 2-3-leaf inputs over 9-10 families in one common order",
                 "call history": "quick 10 / thorough 80 seeded 3-leaf inputs explored after earlier concrete calls in a fresh interpreter",
                 "inputs": "quick: 140 seeded 2-3-leaf inputs (1-3 species leaves, 1-3 families, 30% mutually inconsistent orders, 25% with a prescribed "
                           "root order) + 24 seeded 4-leaf inputs; thorough: every 3-leaf/2-species/2-family and 2-leaf/2-species/3-family input (every leaf "
